@@ -14,25 +14,33 @@ open Amshan.Gen Amshan.Cosem Amshan.Dec Amshan.ListSpec
 theorem own_decoder_same_history (i : Nat) (d : Auto.Decoder (List Nat) Dict) (p : List Nat) (v : Dict)
     (hi : decoders[i]? = some d) (hv : d p = .ok v) :
     stepPayload (some i) p = .ok (some i, some v) := by
-  sorry
+  exact prefers_previous decoders caught i d p v hi hv
 
 /-- a genuine Aidon frame on a fresh AutoDecoder -/
 theorem own_aidon_frame_fresh (hd : Header) (hh : hd.WF) (es : List AidonElem) (h : ∀ e ∈ es, e.WF)
     (hl : es.length ≤ 255) :
     stepPayload none (encHeader hd ++ encAidonBody es) = .ok (some 0, some (aidonExpected es)) := by
-  sorry
+  refine DecOwn.fresh0 _ _ ?_
+  have := C07.aidon_roundtrip_frame hd hh es h hl []
+  rwa [List.append_nil] at this
 
 /-- the Aidon frame decoder rejects every frame whose notification body starts with the structure
     tag (Kaifa and Kamstrup bodies do) -/
 theorem aidon_rejects_structure_body (hd : Header) (hh : hd.WF) (rest : List Nat) :
     ∃ e, (decoders[0]?.map (fun d => d (encHeader hd ++ [2] ++ rest))) = some (.error e) := by
-  sorry
+  refine ⟨.constructSoft, ?_⟩
+  rw [DecTotal.decoders_eq]
+  simp only [List.getElem?_cons_zero, Option.map_some, DecOwn.aidon_frame_reject hd hh rest]
+  rfl
 
 /-- a genuine Kaifa positional frame on a fresh AutoDecoder is decoded by Kaifa_frame -/
 theorem own_kaifa_frame_fresh (hd : Header) (hh : hd.WF) (hc : hd.clock ≠ .null) (vs : List KVal)
     (d : Dict) (hdec : Kaifa.decodeFrame (encHeader hd ++ encKaifaValues vs) = .dict d) :
     stepPayload none (encHeader hd ++ encKaifaValues vs) = .ok (some 1, some d) := by
-  sorry
+  have _ := hc
+  refine DecOwn.fresh1 _ d ?_ hdec
+  have := DecOwn.aidon_frame_reject hd hh ([vs.length] ++ vs.flatMap encKVal)
+  simpa only [encKaifaValues, List.cons_append, List.nil_append, List.append_assoc] using this
 
 /-- a genuine Kamstrup frame on a fresh AutoDecoder is decoded by Kamstrup_frame: Aidon_frame rejects
     the structure tag and Kaifa_frame rejects because the first OBIS code contains an octet ≥ 0x80
@@ -42,29 +50,54 @@ theorem own_kamstrup_frame_fresh (hd : Header) (hh : hd.WF) (l : KamList) (h : l
     (hfirst : ∃ e rest, l.elems = e :: rest ∧ ∃ b ∈ e.obis, 128 ≤ b)
     (d : Dict) (hdec : Kamstrup.decodeFrame (encHeader hd ++ encKamList l) = .dict d) :
     stepPayload none (encHeader hd ++ encKamList l) = .ok (some 2, some d) := by
-  sorry
+  obtain ⟨e, rest, hel, hb⟩ := hfirst
+  obtain ⟨_, hver, _, hwf⟩ := h
+  have ho : e.obis.length = 6 := (hwf e (by rw [hel]; exact List.mem_cons_self)).1.1
+  have hshape := DecOwn.encKamList_shape l hpad e rest hel
+  refine DecOwn.fresh2 _ d ?_ ?_ hdec
+  · have := DecOwn.aidon_frame_reject hd hh (l.lenOctet :: ([10, l.version.length] ++ l.version ++
+      ([9, 6] ++ e.obis ++ (encKamVal e.value ++ List.replicate e.pad 0 ++
+        rest.flatMap (fun e => encObis e.obis ++ encKamVal e.value ++ List.replicate e.pad 0)))))
+    rw [hshape]
+    simpa only [List.cons_append, List.nil_append, List.append_assoc] using this
+  · rw [hshape]
+    exact DecOwn.kaifa_frame_reject_kam hd hh l.lenOctet hlen l.version e.obis _ hver ho hb
 
 /-- a P1 data block (printable ASCII, CR, LF) on a fresh AutoDecoder is decoded by the P1 decoder:
     the three frame decoders reject it (its ninth octet is not a date-time start) -/
 theorem own_p1_fresh (block : List Nat) (hb : ∀ c ∈ block, (32 ≤ c ∧ c ≤ 126) ∨ c = 13 ∨ c = 10)
     (d : Dict) (hdec : P1Parse.decodeContent block = .ok d) :
     stepPayload none block = .ok (some 3, some d) := by
-  sorry
+  have ht : ∀ c ∈ block, c ≠ 0 ∧ c ≠ 9 ∧ c ≠ 12 := by
+    intro c hc
+    have := hb c hc
+    omega
+  exact DecOwn.fresh3 block d (DecOwn.aidon_frame_text block ht) (DecOwn.kaifa_frame_text block ht)
+    (DecOwn.kamstrup_frame_text block ht) hdec
 
 /-- **C12.** `decode_message` gives the same result for an HDLC frame or DLMS message as
     `decode_message_payload` gives for its payload -/
 theorem message_eq_payload_hdlc (prev : Option Nat) (f : Hdlc.Frame) (p : List Nat)
     (hp : f.payload = some p) (hne : p ≠ []) :
     stepMessage prev (.hdlc f) = stepPayload prev p := by
-  sorry
+  have he : p.isEmpty = false := by cases p with | nil => exact absurd rfl hne | cons _ _ => rfl
+  unfold stepMessage stepPayload
+  simp only [Message.payload, hp, he, DecOwn.decodersFor_hdlc, DecOwn.caughtMessage_eq]
+  rfl
 
 theorem message_eq_payload_dlms (prev : Option Nat) (p : List Nat) (hne : p ≠ []) :
     stepMessage prev (.dlms p) = stepPayload prev p := by
-  sorry
+  have he : p.isEmpty = false := by cases p with | nil => exact absurd rfl hne | cons _ _ => rfl
+  unfold stepMessage stepPayload
+  simp only [Message.payload, he, DecOwn.decodersFor_dlms, DecOwn.caughtMessage_eq]
+  rfl
 
 /-- and for an empty or missing payload the result is None with the memory unchanged -/
 theorem message_empty_payload (prev : Option Nat) (m : Message)
     (h : m.payload = none ∨ m.payload = some []) : stepMessage prev m = .ok (prev, none) := by
-  sorry
+  unfold stepMessage
+  rcases h with h | h
+  · rw [h]
+  · rw [h]; rfl
 
 end Amshan.C12
